@@ -4,7 +4,7 @@
    select_with, can) and Model/Exec.v (process_event); they are tied to
    _collect_eligible_transitions / _select_transitions / _process_event / can()
    by the K-macro correspondence (harness/props/c02.py). *)
-From XSM Require Import Model.Macro Proofs.SelectP Proofs.ExecP.
+From XSM Require Import Model.Macro Proofs.SelectP Proofs.ExecP Proofs.SelectBridge Model.TreeLib Gen.GenGeom.
 
 (* For an active atomic state `leaf`, the nominated transition w is the FIRST
    candidate whose guard passes (w :: l is the eligible list of s, in candidate
@@ -60,6 +60,32 @@ Theorem C02_can : forall m C cx ev,
 Proof. exact can_spec. Qed.
 Print Assumptions C02_can.
 
+(* TIE T: _collect_eligible_transitions and _select_transitions are RE-TRANSLATED from the current source on every run
+   (Gen/GenGeom.v, harness/py2coq_tree.py: the `while current:` walk as a Fixpoint on fuel, the loops with `break` as folds
+   carrying a flag, `max(...)` as the first maximal element, the nested helper _passes - the transition's guard through
+   _is_guard_satisfied, memoised per pass - as an oracle gpass : trans -> bool; _matching_descriptors is the translated
+   function of C20) and proved EQUAL to the model functions the theorems above are stated over, for every guard oracle that
+   answers (a guard whose implementation is missing raises out of the selection: the model's None, tied by K-macro) *)
+Theorem C02_collect_is_the_source : forall gpass m ev leaf,
+  collect (fun t => Some (gpass t)) m ev leaf = Some (GenGeom.collect_eligible_transitions m gpass leaf ev).
+Proof. exact collect_bridge. Qed.
+Print Assumptions C02_collect_is_the_source.
+
+Theorem C02_select_with_is_the_source : forall gpass m ev C,
+  select_with m (fun t => Some (gpass t)) C ev = Some (GenGeom.select_transitions m C gpass ev).
+Proof. exact select_bridge. Qed.
+Print Assumptions C02_select_with_is_the_source.
+
+Theorem C02_select_is_the_source : forall m C cx ev (g : trans -> bool),
+  (forall t, passes m C cx t = Some (g t)) -> select m C cx ev = Some (GenGeom.select_transitions m C g ev).
+Proof. exact select_is_the_source. Qed.
+Print Assumptions C02_select_is_the_source.
+
+Theorem C02_can_is_the_source : forall m C cx ev (g : trans -> bool),
+  (forall t, passes m C cx t = Some (g t)) -> can m C cx ev = truthy_list (GenGeom.select_transitions m C g ev).
+Proof. exact can_is_the_source. Qed.
+Print Assumptions C02_can_is_the_source.
+
 (* non-vacuity: a parallel machine whose regions share an ancestor handler *)
 Definition ex_t (i s : nat) (e : string) (tg : target) : trans :=
   Build_trans i s e tg None [] false false.
@@ -76,5 +102,7 @@ Example C02_ex :
   wf ex_m = true /\ twf ex_m = true /\
   option_map (map t_id) (select ex_m [0; 1; 2; 3; 4; 5] [] (Build_event "E" EPlain 0)) = Some [1] /\
   option_map (map t_id) (select ex_m [0; 1; 2; 3; 4; 5] [] (Build_event "F" EPlain 0)) = Some [2] /\
-  select ex_m [0; 1; 2; 3; 4; 5] [] (Build_event "G" EPlain 0) = Some [].
-Proof. vm_compute. auto. Qed.
+  select ex_m [0; 1; 2; 3; 4; 5] [] (Build_event "G" EPlain 0) = Some [] /\
+  map t_id (GenGeom.select_transitions ex_m [0; 1; 2; 3; 4; 5] (fun _ => true) (Build_event "E" EPlain 0)) = [1] /\
+  map t_id (GenGeom.collect_eligible_transitions ex_m (fun _ => true) 3 (Build_event "F" EPlain 0)) = [2].
+Proof. vm_compute. repeat split; reflexivity. Qed.
